@@ -1,6 +1,7 @@
 import TTModel.Basic
 import TTModel.Algebra
 import TTModel.Reduce
+import TTModel.Reduce2
 import TTModel.Extras
 import TTModel.Scalar
 import TTModel.Trunc
